@@ -49,6 +49,8 @@ def cases(tier, seed):
                         continue
                     if tier == "quick" and len(evs) > 1 and (R == 1 or len(fs) > 1 and R == 0):
                         continue
+                    if tier == "thorough" and (len(evs) > 2 and (R > 2 or len(fs) > 2) or len(fs) > 3 and len(evs) > 1 or R == 4 and len(evs) > 1 and base == 40):
+                        continue
                     out.append({"h": "H13", "filters": fs, "rep": R, "base": base, "evs": evs, "_w": 1 + len(evs) * 3 + R})
     return out
 
